@@ -61,6 +61,7 @@ pub fn eval(job: &Job) -> JobResult {
         "C01" => eval_c01(job),
         "C02" | "C03" => eval_c02_c03(job),
         "C05" => eval_c05(job),
+        "C07" | "C08" | "C09" | "C11" => eval_conf(job),
         other => JobResult { machinery_error: Some(format!("unknown check {}", other)), ..Default::default() },
     };
     r.id = job.id.clone();
@@ -236,6 +237,110 @@ fn eval_c05(job: &Job) -> JobResult {
         res.violations.push(viol("missed_deadlock", sum.verdict.short(), "Deadlock".into(), msg, json!({"reference_witness": sc.witness.get("deadlock")})));
     } else {
         res.traces_validated += 1;
+    }
+    res
+}
+
+// ------------------------------------------------------------------------------------------
+// Conformance checks (C07 C08 C09 C11 C04-sync): every iteration's history is accepted by the
+// reference automaton, the outcome sets are equal, and the verdicts agree.
+// ------------------------------------------------------------------------------------------
+
+pub fn history_oracle(p: &Program) -> Box<dyn FnMut(&IterData) -> Option<Viol>> {
+    let p = p.clone();
+    let mut ok_cache: std::collections::HashSet<crate::accept::History> = Default::default();
+    let mut bad_cache: std::collections::HashSet<crate::accept::History> = Default::default();
+    Box::new(move |it: &IterData| {
+        if ok_cache.contains(&it.history) {
+            return None;
+        }
+        let mk = |h: &crate::accept::History, idx: usize| viol("history_rejected", crate::accept::fmt_history(h), "the completion history is a behaviour of the reference automaton".into(), format!("iteration {}", idx), json!({}));
+        if bad_cache.contains(&it.history) {
+            return Some(mk(&it.history, it.index));
+        }
+        let (ok, _) = crate::accept::accepts(&p, &it.history);
+        if ok {
+            ok_cache.insert(it.history.clone());
+            None
+        } else {
+            bad_cache.insert(it.history.clone());
+            Some(mk(&it.history, it.index))
+        }
+    })
+}
+
+fn eval_conf(job: &Job) -> JobResult {
+    let p = &job.program;
+    let mut res = JobResult::default();
+    let sc = scm::explore(p, scm::Mode::explore(p), SC_MAX_STATES);
+    if sc.truncated {
+        res.machinery_error = Some("SC machine truncated".into());
+        return res;
+    }
+    res.states = sc.states;
+    res.transitions = sc.transitions;
+    let bad = sc.bad_kinds();
+    res.ref_outcomes = sc.done.len() as u64;
+    res.nontrivial = sc.done.len() >= 2 || !bad.is_empty();
+    let mut c = Collect { per_iter: Some(history_oracle(p)), max_iter_viols: 64, ..Default::default() };
+    c.iters = 0;
+    let (sum, col) = subject::run(p, &job.cfg, c);
+    res.loom_iterations = col.iters;
+    res.loom_outcomes = col.outcomes.len() as u64;
+    res.verdict = sum.verdict.short();
+    res.capped = sum.verdict == Verdict::Capped;
+    res.traces_validated = col.accepted;
+    res.sample = json!({"program": p.text(), "reference_outcomes": outs_json(sc.done.iter()), "reference_bad": bad, "loom_outcomes": outs_json(col.outcomes.keys()), "loom_verdict": res.verdict, "loom_iterations": col.iters, "histories_accepted": col.accepted});
+    // per-iteration: report the smallest rejected history (stable under reordering of iterations)
+    if let Some(v) = col.iter_viols.iter().min_by(|a, b| a.detail.cmp(&b.detail)) {
+        let mut v = v.clone();
+        v.witness = json!({"rejected_histories": col.iter_viols.iter().map(|x| x.detail.clone()).collect::<Vec<_>>()});
+        res.violations.push(v);
+    }
+    if res.capped {
+        return res;
+    }
+    let msg = sum.message.lines().next().unwrap_or("").to_string();
+    if bad.is_empty() {
+        if sum.verdict != Verdict::Ok {
+            let kind = match sum.verdict {
+                Verdict::Deadlock => "false_deadlock",
+                Verdict::Race => "false_race",
+                Verdict::Leak(_) => "false_leak",
+                _ => "unexpected_verdict",
+            };
+            res.violations.push(viol(kind, sum.verdict.short(), "Ok".into(), msg, json!({})));
+            return res;
+        }
+        for o in &sc.done {
+            if col.outcomes.contains_key(o) {
+                res.traces_validated += 1;
+            } else {
+                res.violations.push(viol("missing_outcome", fmt_outcome(o), "L(P) = R(P)".into(), format!("{} iterations, {} outcomes", col.iters, col.outcomes.len()), json!({"loom_outcomes": outs_json(col.outcomes.keys())})));
+            }
+        }
+        for o in col.outcomes.keys() {
+            if !sc.done.contains(o) {
+                res.violations.push(viol("extra_outcome", fmt_outcome(o), "L(P) = R(P)".into(), format!("first in iteration {}", col.outcomes[o].0), json!({"reference_outcomes": outs_json(sc.done.iter())})));
+            }
+        }
+    } else {
+        let v = sum.verdict.short();
+        if bad.contains(&v) {
+            res.traces_validated += 1;
+        } else {
+            let kind = if bad.len() == 1 {
+                match bad.iter().next().unwrap().as_str() {
+                    "Deadlock" => "missed_deadlock",
+                    "Race" => "missed_race",
+                    k if k.starts_with("Leak") => "missed_leak",
+                    _ => "wrong_verdict",
+                }
+            } else {
+                "wrong_verdict"
+            };
+            res.violations.push(viol(kind, v, format!("{:?}", bad), msg, json!({"reference_witness": sc.witness})));
+        }
     }
     res
 }
